@@ -615,6 +615,18 @@ def _parity_rule(ctx):
                 ctx.holds(f, c, "%s.%s: start value is odd in the given quantity" % (ci.name, mname))
             else:
                 ctx.violated(f, c, "%s.%s: start value %s is not odd in the given quantity" % (ci.name, mname, norm_text(e)))
+            # the given quantity keeps its sign on its way to the solver and to the result: a re-binding of the parameter must
+            # be an odd function of it (np.asarray, astype, a copy) - after `x = np.abs(x)` the sign is gone for everything below
+            f0 = prog.lookup_method(ci, mname) or f
+            for st in walk_function(f0.node):
+                if isinstance(st, ast.Assign) and any(isinstance(t, ast.Name) and t.id == gp for t in st.targets):
+                    pr = _parity(st.value, gp, {})
+                    if pr == "odd":
+                        ctx.holds(f0, st, "%s.%s: %s keeps the sign of the given quantity" % (ci.name, mname, norm_text(st)[:50]))
+                    elif pr == "even":
+                        ctx.violated(f0, st, "%s.%s: %s replaces the given quantity by an even function of itself: everything "
+                                     "computed from it afterwards - the sign of the result included - no longer knows its sign, the "
+                                     "law is not odd" % (ci.name, mname, norm_text(st)[:60]), text="%s given quantity made even" % mname)
 
 
 def _cache(ctx):
